@@ -43,7 +43,12 @@ def make_solution(ps, P, shape, **pb_kwargs):
                 P.assume(s >= last_end)
                 last_end = e
                 ts.assigned_resources = ["w"]
-                rs.assignments.append((ts.name, s, e))
+                if kind == "D":
+                    # a delayed assignment (delay_in=1, early_out=1): the worker is held for a part of the task only
+                    P.assume(e - s >= 3)
+                    rs.assignments.append((ts.name, s + 1, e - 1))
+                else:
+                    rs.assignments.append((ts.name, s, e))
         else:
             # an optional task left out: parked at a negative instant; build_solution still reports the declared
             # duration of a fixed-duration task
@@ -58,7 +63,7 @@ def make_solution(ps, P, shape, **pb_kwargs):
     return pb, sol
 
 
-SHAPES = ((("F", True),), (("F", True), ("Z", True)), (("F", False), ("F", True)), (("F", True), ("F", False), ("F", True)))
+SHAPES = ((("F", True),), (("F", True), ("Z", True)), (("F", False), ("F", True)), (("F", True), ("F", False), ("F", True)), (("D", True), ("F", True)))
 
 
 @register
